@@ -336,6 +336,11 @@ V('M-pos-inside', ['C05', 'C07'], 'A2.pos', BD, "        original_position = sub
 V('M-oid-arc2-40', ['C01', 'C03'], 'W.oidenc', BE, "        if 0 <= second <= 39:", "        if 0 <= second <= 40:")
 V('M-bit-shift', ['C01', 'C03'], 'W.bitenc', BE, "            alignedValue = value << (8 - valueLength % 8)", "            alignedValue = value << (7 - valueLength % 8)")
 
+
+V('M-real-base-bits', ['C01', 'C03', 'C09'], 'W.realfmt', BD, "            b = fo >> 4 & 0x03  # base bits", "            b = fo >> 5 & 0x03  # base bits")
+V('M-real-exp-len', ['C01', 'C03'], 'W.realfmt', BE, "            elif n == 3:\n                fo |= 2", "            elif n == 3:\n                fo |= 3")
+V('M-real-sign-ext', ['C01', 'C09'], 'W.realfmt', BD, "            e = oct2int(eo[0]) & 0x80 and -1 or 0", "            e = oct2int(eo[0]) & 0x40 and -1 or 0")
+
 # --------------------------------------------------------------------------- runner
 
 def _copy_tree(repo, dest):
